@@ -558,6 +558,12 @@ fire("C01", "edgelist-shape-by-len-of-dictionaries", "R1.1", E(EL, "EdgeListVect
 silent("C01", "edgelist-shape-by-largest-index", E(EL, "EdgeListVectorizer.transform", "            shape=self._train_matrix.shape,\n",
      "            shape=(max(self.row_index_dictionary_) + 1, max(self.column_index_dictionary_) + 1),\n"),
      "the extent recomputed the way fit computes it")
+_NGC_OLD = "                    this_ker = kernels[i]\n                    for j, context in enumerate(window):\n                        val = np.float32(this_ker[j] / total)\n                        if val > 0:\n                            row = target_gram_ind\n                            col = context + i * n_unique_tokens\n                            key = col + array_mul * row\n                            coo_data[i] = coo_append(coo_data[i], (row, col, val, key))\n"
+_NGC_NEW = "                    this_ker = kernels[i]\n                    coo = coo_data[i]\n                    for j, context in enumerate(window):\n                        val = np.float32(this_ker[j] / total)\n                        if val > 0:\n                            row = target_gram_ind\n                            col = context + i * n_unique_tokens\n                            key = col + array_mul * row\n                            coo = coo_append(coo, (row, col, val, key))\n"
+fire("C04", "accumulator-slot-written-back-after-the-window-loop", "R4.1", E(NGC, "numba_build_skip_grams", _NGC_OLD, _NGC_NEW + "                coo_data[i] = coo\n"),
+     "seeded r4_C04: the local accumulator is stored back once, after the loop over the windows - only the last window's buffer survives a growth", allow_error=True)
+silent("C04", "accumulator-slot-written-back-per-window", E(NGC, "numba_build_skip_grams", _NGC_OLD, _NGC_NEW + "                    coo_data[i] = coo\n"),
+     "the same hoisting with the store inside the loop over the windows")
 # --- C20: bookkeeping clauses of the histogram / KDE vectorizers
 KDEF = "vectorizers/kde_vectorizer.py"
 fire("C20", "left-outlier-overlaps", "R20.1", E(VEC, "add_outier_bins", "left_outlier = pd.Interval(left=absolute_range[0], right=interval_list[0].left)", "left_outlier = pd.Interval(left=absolute_range[0], right=interval_list[0].right)"),
